@@ -33,21 +33,28 @@ LEVEL = "proof"
 MANIFEST = {
     "category": "proof",
     "text": ("Lean 4 theorems about an executable model of incidences/blazer.py (prefetch with its size-guarded recursion, "
-             "_generate_inner_blocks, blaze, is_sequential, sequentialize_strictly) and of Sequential.sequentialize/reorder_equations, "
-             "for every n, every n-by-n boolean matrix with a perfect matching, every id labelling and every pair of inner permutations "
-             "(the heuristic triangularize_inner_block is an arbitrary permutation input): the blocks partition rows and columns, are square, "
-             "no block has an incidence in a column of a later block, every diagonal block has a perfect matching, prefetched singleton "
-             "blocks have exactly one unknown given the earlier ones; blaze never raises on such input. Sequential models with unique LHS "
-             "names: a returned order is a permutation in which every zero-shift LHS name read is the LHS of an earlier equation, an error "
-             "leaves the state unchanged, and an error occurs exactly when no valid order exists (the un-raised IrisPieError of "
-             "sequentialize_strictly is shown to be harmless there: the permutation check of reorder_equations raises in exactly those cases). "
-             "Tie: staged exact correspondence with blazer.prefetch / triangularize_inner_block / blaze(return_info=True) -- exhaustive over all "
-             "boolean matrices n<=3 (quick) / n<=4 (thorough, 2^16 matrices x 2 labellings; those without a perfect matching and non-square "
-             "shapes feed the malformed stream), sampled block-structured, triangular, dense, banded, permuted matrices 5<=n<=40, random "
-             "Sequential models and Simultaneous.split_into_blocks; an independent matching-based oracle on the implementation's blocks supplies the replay."),
+             "_generate_inner_blocks, blaze with ids and Block sorting, is_sequential, sequentialize_strictly), of Sequential.sequentialize / "
+             "reorder_equations / copy as a state machine over call histories, and of Simultaneous.split_into_blocks (unknowns of a steady plan, "
+             "any-shift incidence matrix): for every n, every n-by-n boolean matrix with a perfect matching, every id labelling and every pair of inner "
+             "permutations (the heuristic triangularize_inner_block is an arbitrary permutation input) the blocks partition rows and columns, are "
+             "square, have no incidence in a column of a later block, every diagonal block has a perfect matching, prefetched singleton blocks have "
+             "exactly one unknown given the earlier ones, blaze never raises; the same at the level of ids after Block sorting (blaze_ids_valid), and "
+             "blaze commutes with every re-labelling of the ids for every matrix whatsoever (blaze_relabel_equivariant); split_into_blocks puts a qid in "
+             "exactly one block iff it can be exogenized and is not exogenized by the plan or is endogenized by it. Sequential models: sequentialize "
+             "never returns a non-permutation and never drops an equation (all models); with pairwise distinct LHS names the incidence matrix is square "
+             "with full diagonal and sequentialize returns a valid order iff one exists, else raises leaving the state unchanged, after any history "
+             "of calls; the known finding about repeated LHS names is itself machine-checked on the model (three counterexamples by kernel evaluation). "
+             "Tie: staged exact correspondence with blazer.prefetch / triangularize_inner_block / blaze(return_info=True) -- exhaustive over all boolean "
+             "matrices n<=3 (quick) / n<=4 (thorough, 2^16 matrices, those with a perfect matching under two labellings; the others and non-square "
+             "shapes feed the malformed stream), sampled block-structured, triangular, dense, banded, permuted matrices 5<=n<=40, re-labelling "
+             "equivariance of the implementation, random Sequential models and call histories (state, incidence matrix, is_sequential, executable "
+             "validity after every call), Simultaneous.split_into_blocks on models with measurement equations, parameters, steady autovalues and "
+             "steady plans (unknowns, steady incidence matrix and blocks compared stage by stage); an independent matching-based oracle on the "
+             "implementation's blocks and an order oracle on every sequentialize() supply the replay."),
     "design": "7/C16",
     "note": ("numpy's argsort tie-breaking inside triangularize_inner_block is not modelled (any permutation is allowed); Sequential models "
-             "with repeated LHS names are outside the theorems and are reported by the oracle (finding sequential-repeated-lhs)."),
+             "with repeated LHS names are outside the correctness theorems (known finding sequential-repeated-lhs, exhibited on the model); parsing of "
+             "model sections and steady() itself are not modelled."),
     "technique": "Lean 4 proof over executable model + staged exhaustive/sampled differential correspondence + independent matching oracle",
 }
 ASSUMPTIONS = [
@@ -295,9 +302,21 @@ class Batch:
         self.cases, self.reqs, self.impl = [], [], []
 
 
+def check_equivariance(ctx: Ctx, im, blocks0, blocks1, lab1, lab2):
+    """blaze under a re-labelling = the re-labelled blocks of blaze under the identity labelling (theorem blaze_relabel_equivariant);
+    called right after the same pattern went through blaze with other ids, which is when a result remembered per pattern would show"""
+    ctx.count("blaze:equivariance-checked")
+    show = lambda bs: None if bs is None else [(tuple(int(x) for x in b.eids), tuple(int(x) for x in b.qids)) for b in bs]
+    want = None if blocks0 is None else [(tuple(sorted(lab1[e] for e in b.eids)), tuple(sorted(lab2[q] for q in b.qids))) for b in blocks0]
+    if want != show(blocks1):
+        ctx.disagree("relabel-equivariance", {"kind": "blaze", "shape": list(im.shape), "bits": bits_of(im), "eids": lab1, "qids": lab2, "tag": "equivariance"},
+                     str(show(blocks1)), str(want))
+
+
 def blaze_case(ctx: Ctx, batch: Batch | None, im, eids, qids, tag: str, check_hpm_model=False):
     case = {"kind": "blaze", "shape": list(im.shape), "bits": bits_of(im), "eids": [int(e) for e in eids], "qids": [int(q) for q in qids], "tag": tag}
     req, reply, blocks, problems, pre = impl_blaze(im, eids, qids)
+    blaze_case.last_blocks = blocks
     ctx.evaluations += 1
     for p in problems:
         ctx.disagree("staging", case, p, "the implementation's stages must be consistent with each other")
@@ -340,7 +359,9 @@ def run_blaze(ctx: Ctx, oracle_only=False, scale=1):
             pm = blaze_case(ctx, b, im, list(range(n)), list(range(n)), f"exh{n}")
             if pm or n <= 3:
                 # second labelling: every matrix for n <= 3, the ones with a perfect matching for n = 4
+                first = blaze_case.last_blocks
                 blaze_case(ctx, b, im, lab1, lab2, f"exh{n}-relabelled")
+                check_equivariance(ctx, im, first, blaze_case.last_blocks, lab1, lab2)
             npm += pm
         if b is not None and len(b.reqs) > 40000:
             b.flush()
@@ -492,7 +513,8 @@ def seq_case(ctx: Ctx, batch: Batch | None, eqs, kind):
     after = [idx.get(e.human, -1) for e in m.equations]
     reads = lambda e: sorted(set(e[1]) | {1000 + x for x in e[3]})
     state = ";".join(f"{eqs[i][0]}:" + csv(reads(eqs[i])) for i in after) if all(i >= 0 for i in after) else "state-has-unknown-equations"
-    reply = f"names={names};im={bits_of(im) if im.size else ''};isseq={'T' if isseq else 'F'};res={res};state={state}"
+    valid = "T" if all(i >= 0 for i in after) and seq_valid([eqs[i] for i in after]) else "F"
+    reply = f"names={names};im={bits_of(im) if im.size else ''};isseq={'T' if isseq else 'F'};res={res};state={state};valid={valid}"
     req = "seq " + ";".join(f"{e[0]}:" + csv(reads(e)) for e in eqs)
     ctx.evaluations += 1
     ctx.count(f"seq:{kind}")
@@ -575,7 +597,8 @@ def seq_state_text(m, eqs, idx):
     names = ",".join(str(name_num(s)) for s in m.lhs_names)
     im = m.incidence_matrix
     state = ";".join(f"{eqs[i][0]}:" + csv(reads(eqs[i])) for i in after) if all(i >= 0 for i in after) else "state-has-unknown-equations"
-    return f"names={names};im={bits_of(im) if im.size else ''};isseq={'T' if m.is_sequential else 'F'};state={state}", after
+    valid = "T" if all(i >= 0 for i in after) and seq_valid([eqs[i] for i in after]) else "F"
+    return f"names={names};im={bits_of(im) if im.size else ''};isseq={'T' if m.is_sequential else 'F'};state={state};valid={valid}", after
 
 
 def seqops_case(ctx: Ctx, batch: Batch | None, eqs, ops, kind):
@@ -863,6 +886,28 @@ def simw_case(ctx: Ctx, batch: Batch | None, case):
     got_text = "".join("[" + csv(b.eids) + "/" + csv(b.qids) + "]" for b in blocks)
     if batch is not None:
         batch.add(case, req, reply.split(";B=")[0] + ";B=" + got_text)
+    # staged correspondence with the model of split_into_blocks itself (unknowns of the plan, steady incidence matrix, blocks in qids):
+    # request from my own reading of the generated equations (names mentioned, whatever their shift) and of the plan
+    try:
+        from irispie.simultaneous import _steady
+        name_to_qid = m.create_name_to_qid()
+        eq_lines = [l for l in src.split("\n") if l.strip().startswith("0 =")]
+        tokens = [sorted({name_to_qid[x] for x in _re.findall(r"\b([tpys]\d+)\b", l)}) for l in eq_lines]
+        can_exo = [name_to_qid[f"t{j}"] for j in range(case["nt"])] + [name_to_qid[f"y{j}"] for j in range(case["nm"])]
+        exo_q = [name_to_qid[f"t{j}"] for j in case["exo"]]
+        endo_q = [name_to_qid[f"p{j}"] for j in case["endo"]]
+        rp_cp = " | ".join(x.strip() for x in req.split("|")[-2:])
+        sreq = ("split " + ";".join(csv(t) or "-" for t in tokens) + " | " + csv(range(n)) + " | " + csv(can_exo) + " | " + (csv(exo_q) or "-")
+                + " | " + (csv(endo_q) or "-") + " | " + rp_cp)
+        wrt = _steady._resolve_steady_wrt(m, plan, is_flat=m.resolve_flags().is_flat)
+        sim = _steady._calculate_steady_incidence_matrix(wrt.equations, wrt.qids)
+        idb = "".join("[" + csv(b.eids) + "/" + csv(sorted(name_to_qid[unknowns[c]] for c in b.qids)) + "]" for b in blocks)
+        sreply = "W=" + csv(wrt.qids) + ";M=" + ("".join("1" if x else "0" for x in np.asarray(sim, dtype=bool).ravel())) + ";B=" + idb
+        if batch is not None:
+            batch.add(dict(case, stage="split"), sreq, sreply)
+            ctx.count("simw:split-op")
+    except Exception as e:
+        ctx.disagree("split-into-blocks-full-models", case, f"staging raised {e!r}", "W/M/B stages")
 
 
 def run_simw(ctx: Ctx, oracle_only=False, scale=1):
